@@ -57,6 +57,9 @@ class CallMixin:
                 return [self.val(st, VFn("bound", name=name, self_=v))]
             if name == "__class__":
                 return [self.val(st, VClass(v.cls))]
+            if name == "__module__":
+                d_ = self.schema.classes.get(v.cls)
+                return [self.val(st, VStr(d_.module or "" if d_ else ""))]
             raise EngineError(f"class {v.cls} has no field or method {name!r} in the schema")
         if isinstance(v, VModule):
             dotted = f"{v.name}.{name}"
@@ -581,7 +584,23 @@ class CallMixin:
                 if not has_d:
                     raise EngineError(f"missing argument {nm} for contract {c.key}")
                 env[nm] = d if isinstance(d, V) else self.spec_value(d, st, {})
+            else:
+                env[nm] = self.coerce_arg(env[nm], T)
         return env
+
+    def coerce_arg(self, v, T):
+        """An opaque value passed where the contract declares a scalar: read it as that scalar."""
+        if isinstance(v, VObj):
+            if isinstance(T, ty._Int):
+                return VInt(_unbox_int(v.t))
+            if isinstance(T, ty._Bool):
+                return VBool(z3.And(v.t != 0, _truthy(v.t)))
+            if isinstance(T, ty._Str):
+                f = z3.Function("unbox_str", ty.IntS, ty.StrS)
+                return VStr(f(v.t))
+            if isinstance(T, (ty.Ref, ty.Map, ty.Lst)):
+                return VRef(v.t, T.cls, T if isinstance(T, (ty.Map, ty.Lst)) else None)
+        return v
 
     def apply_contract(self, c, self_v, args, kwargs, st, node):
         if c.trusted:
@@ -1112,6 +1131,10 @@ class CallMixin:
             items = self.concrete_items(v, st)
             if len(items) <= 1:
                 return [self.val(st, st.new_loc("list", items))]
+        if isinstance(v, VObj):
+            f = z3.Function("py_sorted", ty.IntS, ty.IntS)
+            self.abstractions.add("sorted(opaque iterable) is uninterpreted py_sorted(it)")
+            return [self.val(st, VObj(f(v.t)))]
         # abstract: sorted permutation
         a = self.as_abs(v, st) if not isinstance(v, VAbs) else v
         if a is None:
@@ -1179,6 +1202,10 @@ class CallMixin:
             return [(k, s, VTuple(vs) if k == "val" else vs) for k, s, vs in acc]
         if len(args) == 2 and isinstance(args[1], VAbs) and isinstance(fn, VFn) and fn.kind == "builtin" and fn.name == "int":
             return [self.val(st, VAbs(args[1].mem, args[1].length, args[1].elem, src=("map_int", args[1])))]
+        if len(args) == 2 and isinstance(args[1], (VObj, VRef)):
+            f = z3.Function("py_map", ty.IntS, ty.IntS, ty.IntS)
+            self.abstractions.add("map(f, opaque iterable) is uninterpreted py_map(f, it)")
+            return [self.val(st, VObj(f(to_obj_term(fn), to_obj_term(args[1]))))]
         raise EngineError("map() over symbolic iterable")
 
     def bi_next(self, args, kwargs, st, node):
